@@ -255,6 +255,17 @@ Definition write_consensus_snapshot (h : list crec) (o : cop) : res (list crec) 
 Definition apply_cop (h : list crec) (o : cop) : list crec :=
   match write_consensus_snapshot h o with Ok h' => h' | _ => h end.
 
+(* what "the recorded consensus history is a single chain" means: the records
+   in write order; each holds one transaction, points at the next record's
+   transaction, the next record's transaction references this one, timestamps
+   strictly increase, the newest record points at nothing *)
+Definition link (r1 r2 : crec) : Prop :=
+  exists t1 t2, cr_txs r1 = [t1] /\ cr_txs r2 = [t2] /\ cr_next r1 = Some t2
+                /\ cr_ref r2 = Some t1 /\ cr_ts r1 < cr_ts r2.
+Inductive chain : list crec -> Prop :=
+| chain_one r t : cr_txs r = [t] -> cr_next r = None -> chain [r]
+| chain_cons r1 r2 l : link r1 r2 -> chain (r2 :: l) -> chain (r1 :: r2 :: l).
+
 (* ===================================================================== *)
 (* Part B: ledger model for C16                                           *)
 (* ===================================================================== *)
